@@ -809,6 +809,7 @@ func TestVerifC15Replay(t *testing.T) {
 		drifts  int
 		infra   string
 		sampled int
+		perSig  = map[string]int{}
 	)
 	for w := 0; w < workers; w++ {
 		wg.Add(1)
@@ -841,6 +842,11 @@ func TestVerifC15Replay(t *testing.T) {
 					}
 				}
 				for _, v := range res.viol {
+					// verifh keeps the first 50 violation records only: report a few per signature so
+					// that frequent (known) signatures cannot crowd out a new one
+					if perSig[v[0]]++; perSig[v[0]] > 3 {
+						continue
+					}
 					verifh.Violation(v[0], v[1], map[string]any{"behaviour": behs[i], "seed": verifh.Seed(), "conc": fmt.Sprint(conc)})
 				}
 				if res.trace != nil && tf != nil {
